@@ -1,4 +1,4 @@
-import HgVerif.Model.RefLinkChain
+import HgVerif.Model.RefLinkStruct
 import HgVerif.Driver.Proto
 /-! Model driver for C13: same line protocol as `harness/drv_ref.cpp`.
 Consumer ids `0 .. ncons-1` are the counting consumers (consumer 1 is `Unchecked`); id `ncons` is
@@ -13,6 +13,10 @@ structure DS where
   inner : Bool := false
   innerRef : Bool := false
   cmp : Bool := false
+  /-- structured shapes (`tsb2`, `tsb3`, `tsl2`, `tsbw2`): number of fields; `0` = a plain shape -/
+  nF : Nat := 0
+  /-- `tsbw2`: bundles assembled at wiring time - `r` / `n` are not observed -/
+  wired : Bool := false
   /-- `cfg ... tree:<T>` -/
   chained : Bool := false
   /-- the selection tree with all nodes in their initial state -/
@@ -29,8 +33,42 @@ def mkState (shape : Shape) (ncons : Nat) (inner innerRef : Bool) (nT : Nat) : S
          startSched := if inner && ncons ≥ 2 then [1] else [],
          resample := if innerRef && ncons ≥ 2 then [1] else [] }
 
+/-- the field links of consumer `c` -/
+def fieldLinks (nF c : Nat) : List Nat := (List.range nF).map fun f => c * nF + f
+
+def mkStateS (nF ncons : Nat) (inner innerRef : Bool) (nT : Nat) : State :=
+  initS nF (ncons + 1) nT (fun c => c != 1 && c != ncons)
+    (if inner && ncons ≥ 2 then fieldLinks nF 1 else [])
+    (if innerRef && ncons ≥ 2 then fieldLinks nF 1 else [])
+
 def DS.fresh (d : DS) : DS :=
-  { d with st := { chain := d.tree, s := mkState d.shape d.ncons d.inner d.innerRef d.nT } }
+  { d with st := { chain := d.tree,
+                   s := if d.nF == 0 then mkState d.shape d.ncons d.inner d.innerRef d.nT
+                        else mkStateS d.nF d.ncons d.inner d.innerRef d.nT } }
+
+def fieldNames : List String := ["x", "y", "z"]
+
+/-- fields with their values, `x:<v>,y:<v>` (`-` when there is none) -/
+def fieldsText (items : List (Nat × Int)) : String :=
+  if items.isEmpty then "-" else ",".intercalate (items.map fun p => s!"{fieldNames.getD p.1 "?"}:{p.2}")
+
+def fieldVal (v : View) : Int :=
+  match v.items with
+  | (_, x) :: _ => x
+  | [] => 0
+
+def seenTextS (v : SView) : String :=
+  s!"v={b2s v.valid} m={b2s v.modified} x=" ++
+    ",".intercalate (v.fields.map fun f => if f.valid then toString (fieldVal f) else "_") ++
+    " fm=" ++ String.join (v.fields.map fun f => b2s f.modified)
+
+/-- what `record` stores for a bundle: the valid fields that are modified -/
+def recTextS (v : Option SView) : String :=
+  match v with
+  | none => "-"
+  | some v =>
+    fieldsText (((List.range v.fields.length).zip v.fields).filterMap fun p =>
+      if p.2.modified && p.2.valid then some (p.1, fieldVal p.2) else none)
 
 /-! selection trees: `T ::= a|b|c|d | i(T,T) | m(T,T,T) | p(T)`, `p` not directly above a target (same limits as the harness) -/
 
@@ -220,7 +258,17 @@ def parseCycle (d : DS) (ws : List String) : Option CyParse :=
             | some b => if cy.sel.any (·.1 == n) then none else some { cy with sel := cy.sel ++ [(n, b)] }
             | none => none
           | none => none
+        | [tc, '.', fc], _ =>
+          if d.nF == 0 then none else
+          match targetIdx (String.singleton tc) d.nT, parseInt v with
+          | some t, some val =>
+            if 'x'.toNat ≤ fc.toNat && fc.toNat < 'x'.toNat + d.nF then
+              let i := t * d.nF + (fc.toNat - 'x'.toNat)
+              if cy.d.any (·.1 == i) then none else some { cy with d := cy.d ++ [(i, { sets := [(0, val)] })] }
+            else none
+          | _, _ => none
         | _, _ =>
+          if d.nF != 0 then none else
           match targetIdx k d.nT with
           | some i =>
             if cy.d.any (·.1 == i) then none
@@ -233,7 +281,37 @@ def ownText (sh : Shape) (t : Target) : String :=
   | .ts => tsVal t.items
   | _ => deltaText sh t.added t.removed t.modKV
 
+/-- the same state with `targets` / `links` tabulated (the model updates them by wrapping closures; without
+    this a long history makes every lookup walk through all earlier updates) -/
+def tabulate (s : State) (nL nT : Nat) : State :=
+  let ts := ((List.range nT).map s.targets).toArray
+  let ls := ((List.range nL).map s.links).toArray
+  let t0 := s.targets nT
+  let l0 := s.links nL
+  { s with targets := fun t => ts.getD t t0, links := fun c => ls.getD c l0 }
+
+def cycleLineS (d : DS) (cy : CyParse) : DS × String :=
+  let inp : CIn := { conds := fun n => (cy.sel.find? (·.1 == n)).map (·.2),
+                     ticks := fun t => (cy.d.find? (·.1 == t)).map (·.2) }
+  let r := cycleCS d.nF (d.ncons + 1) d.st inp
+  let s' := r.1.s
+  let names := ["ra", "rb", "rc", "rd"]
+  let recs := (List.range d.nT).map fun t =>
+    s!" {names.getD t "r?"}=" ++ fieldsText ((List.range d.nF).filterMap fun f =>
+      let tg := s'.targets (t * d.nF + f)
+      if tg.lmt == s'.now then some (f, fieldVal { items := tg.items }) else none)
+  let seen := fun (c : Nat) => (r.2.find? (·.1 == c)).map (·.2)
+  let cons := (List.range d.ncons).map fun c =>
+    " | " ++ (match seen c with
+      | some v => seenTextS v
+      | none => "-")
+  ({ d with st := { r.1 with s := tabulate r.1.s ((d.ncons + 1) * d.nF) (d.nT * d.nF) } },
+   (if d.wired then "r=-" else s!"r={b2s (s'.refLmt == s'.now)}" ++
+      (if d.chained then s!" n={published d.st.chain r.1.chain}" else "")) ++
+   String.join recs ++ " rs=" ++ recTextS (seen d.ncons) ++ String.join cons)
+
 def cycleLine (d : DS) (cy : CyParse) : DS × String :=
+  if d.nF != 0 then cycleLineS d cy else
   let inp : CIn := { conds := fun n => (cy.sel.find? (·.1 == n)).map (·.2),
                      ticks := fun t => (cy.d.find? (·.1 == t)).map (·.2) }
   let r := cycleC d.st inp
@@ -246,12 +324,16 @@ def cycleLine (d : DS) (cy : CyParse) : DS × String :=
     " | " ++ (match seen c with
       | some v => seenText d.shape v
       | none => "-")
-  ({ d with st := r.1 },
+  ({ d with st := { r.1 with s := tabulate r.1.s (d.ncons + 1) d.nT } },
    s!"r={b2s (s'.refLmt == s'.now)}" ++ (if d.chained then s!" n={published d.st.chain r.1.chain}" else "") ++
    String.join recs ++ " rs=" ++ recText d.shape (seen d.ncons) ++ String.join cons)
 
 def shapeOf (s : String) : Option Shape :=
-  if s == "ts" then some .ts else if s == "tss" then some .tss else if s == "tsd" then some .tsd else none
+  if s == "ts" then some .ts else if s == "tss" then some .tss else if s == "tsd" then some .tsd
+  else if s == "tsb2" || s == "tsb3" || s == "tsl2" || s == "tsbw2" then some .ts else none
+
+def fieldsOf (s : String) : Nat :=
+  if s == "tsb3" then 3 else if s == "tsb2" || s == "tsl2" || s == "tsbw2" then 2 else 0
 
 def step (d : DS) (ws : List String) : DS × String :=
   match ws with
@@ -270,7 +352,8 @@ def step (d : DS) (ws : List String) : DS × String :=
       | some shape, some (chained, tree, tp) =>
         if (n == "1" || n == "2" || n == "3") && (stage == "direct" || stage == "pass" || stage == "inner" || stage == "innerref") then
           (({ shape := shape, ncons := n.toNat!, inner := stage == "inner" || stage == "innerref",
-              innerRef := stage == "innerref", cmp := more == ["cmp"], chained := chained, tree := tree,
+              innerRef := stage == "innerref", cmp := more == ["cmp"], nF := fieldsOf sh, wired := sh == "tsbw2",
+              chained := chained, tree := tree,
               arity := tp.arity, nT := tp.nT } : DS).fresh, "ok")
         else bad
       | _, _ => bad
